@@ -273,42 +273,57 @@ def replaceWithMask (arr : PStruct α) (mask : List Bool) (ty : List (String × 
   let bro := PStruct.ofScalars ty (vidx.map fun i => (value.getD i none))
   pure (PStruct.ifElse mask bro arr)
 
-/-- `__setitem__` (ext_array.py:267-320). -/
-def NArr.setItem (c : PCol α) (k : Key) (v : SetVal α) : R (PCol α) := do
-  let n := c.len
+/-- the target mask of an assignment and, for positional keys, the order in which the values are
+    consumed (`np.unique(key, return_index=True)`): ext_array.py `__setitem__`, first half -/
+def setItemMask (n : Nat) (k : Key) : R (List Bool × Option (List Nat)) :=
   let setAt (ps : List Nat) : List Bool := (List.range n).map fun i => ps.contains i
   -- integer positions (int, slice and integer-array keys): `np.unique(key, return_index=True)`
   let fromPositions (ps : List Nat) : List Bool × Option (List Nat) :=
     (setAt ps, some ((dedupSorted (ps.mergeSort (· ≤ ·))).map (firstIndexOf ps)))
-  let (mask, argsort) ← (match k with
-    | .int i => match normPos n i with
-      | none => .error .indexError
-      | some j => pure (fromPositions [j])
-    | .slice a b st => do
-      let (a', b', st') ← sliceIndices n a b st
-      pure (fromPositions (rangeList a' b' st'))
-    | .mask m => if m.length ≠ n then .error .indexError else pure (m, none)
-    | .ints is =>
-      let idx := is.map (normPos n)
-      if idx.any Option.isNone then .error .indexError
-      else pure (fromPositions (idx.filterMap id))
-    : R (List Bool × Option (List Nat)))
-  if (match k with | .ints is => is.isEmpty | .slice _ _ _ => ¬ mask.any id | _ => false) then return c
-  if mask.length = 0 then return c
-  if ¬ mask.any id then return c
-  let cnt := (mask.filter id).length
-  let vals : List (PScalar α) := match v with
-    | .scalar r => List.replicate cnt (boxScalar c.ty r)
-    | .array rs => rs.map (boxScalar c.ty)
-  let vals ← (match argsort with
-    | none => pure vals
-    | some as =>
-      if as.any (· ≥ vals.length) then .error .indexError
-      else pure (as.map fun i => vals.getD i none) : R (List (PScalar α)))
+  match k with
+  | .int i => match normPos n i with
+    | none => .error .indexError
+    | some j => pure (fromPositions [j])
+  | .slice a b st => do
+    let (a', b', st') ← sliceIndices n a b st
+    pure (fromPositions (rangeList a' b' st'))
+  | .mask m => if m.length ≠ n then .error .indexError else pure (m, none)
+  | .ints is =>
+    let idx := is.map (normPos n)
+    if idx.any Option.isNone then .error .indexError
+    else pure (fromPositions (idx.filterMap id))
+
+/-- `replace_with_mask` on the combined storage, then the validated replacement of the array's
+    data (`_replace_chunked_array(..., validate=True)`): ext_array.py `__setitem__`, last line -/
+def setItemFinish (c : PCol α) (mask : List Bool) (vals : List (PScalar α)) : R (PCol α) := do
   let res ← replaceWithMask c.combine mask c.ty vals
   let out : PCol α := { c with chunks := [res] }
   out.validate
   pure out
+
+/-- the values as one boxed array: a scalar is repeated for every target
+    (`pa.array([scalar] * pa.compute.sum(pa_mask))`), a sequence is boxed element-wise -/
+def setItemVals (ty : List (String × String)) (cnt : Nat) (v : SetVal α) : List (PScalar α) :=
+  match v with
+  | .scalar r => List.replicate cnt (boxScalar ty r)
+  | .array rs => rs.map (boxScalar ty)
+
+/-- `value.take(argsort)` for positional keys -/
+def setItemReorder (argsort : Option (List Nat)) (vals : List (PScalar α)) : R (List (PScalar α)) :=
+  match argsort with
+  | none => pure vals
+  | some as =>
+    if as.any (· ≥ vals.length) then .error .indexError
+    else pure (as.map fun i => vals.getD i none)
+
+/-- `__setitem__` (ext_array.py:267-320). -/
+def NArr.setItem (c : PCol α) (k : Key) (v : SetVal α) : R (PCol α) := do
+  let (mask, argsort) ← setItemMask c.len k
+  if (match k with | .ints is => is.isEmpty | .slice _ _ _ => ¬ mask.any id | _ => false) then return c
+  if mask.length = 0 then return c
+  if ¬ mask.any id then return c
+  let vals ← setItemReorder argsort (setItemVals c.ty (mask.filter id).length v)
+  setItemFinish c mask vals
 
 /-! ### field edits -/
 
